@@ -43,18 +43,10 @@ class C09:
         # (random draws hit "limit exactly 255 with an own maximum above the packet count" only a few times per run)
         out = []
         for dll in ("j1939-21", "j1939-22"):
-            seg = 60 if dll == "j1939-22" else 7
             for limit in (1, 2, 254, 255):
                 for own in (1, 2, 254, 255):
                     for packets in (2, 3, 5, 40):
-                        i = len(out)
-                        out.append({"dll": dll, "role": "resp", "mode": "rts",
-                                    "pl": {"n": seg * (packets - 1) + 1 + i % (seg - 1), "cls": "arith", "a": i % 256, "b": 3, "tile": [1], "seg": seg},
-                                    "max_cmdt": own, "max_cmdt_r": 255, "dp": 0, "prio": 6,
-                                    "lat": {"S": [0.0005], "P": [0.0005]}, "eps": [0.0], "disp": [0.0], "bam_dt": None, "rts_dt": None,
-                                    "sas": [0x30, 0x90], "tx_time": 0.0, "app_timer": None, "pf": 0xD1, "ps": None,
-                                    "peer": {"grants": [255], "holds": [0], "hold_gap": 0.1, "rereq": [], "reply_lat": [0.001],
-                                             "limit": limit, "dt_gap": 0.001, "bam_gap": 0.05, "session": i % 8 if dll == "j1939-22" else 0}})
+                        out.append(PS.base_case(dll, "resp", "rts", packets, i=len(out), max_cmdt=own, peer={"limit": limit}))
         return out
 
     def exhaustive(self, tier):
